@@ -2828,8 +2828,12 @@ def check_C13(res):
         def view(steps):
             outs = collections.defaultdict(list)
             last = None
+            closed = set(str(c) for s in steps for c in (s.get("eof") or []))
             for s in sorted(steps, key=lambda s: s["k"]):
                 for c, ls in (s.get("out") or {}).items():
+                    if c in closed:
+                        # relays still queued for a connection that closes itself are dropped with it
+                        ls = [l for l in ls if l.startswith(":" + a.cfg.name + " ") or l.startswith("ERROR")]
                     outs[c] += ls
                 if s.get("dump"):
                     last = s["dump"]
@@ -2861,3 +2865,1061 @@ def check_C13(res):
         "samples": [{"line": lines[i], "tokens": toks[i], "parsed": pi[i]} for i in range(0, 40, 8)],
         "l2": r["summary"]})
     res.assumptions = ["the python grammar oracle and its Rust-Debug renderer are part of the trusted base of the check (not of the theorems)"]
+
+
+# ====================================================================== C20
+import socket, ssl, subprocess, time as _time
+
+RSBIN_DIR = os.path.join(irc.BUILD, "rsbin")
+SERVER_BIN = os.path.join(RSBIN_DIR, "debug", "simple-irc-server")
+GOOD_HASH = "VgWezXctjWvsY6V7gzSQPnluUuAwq06m5IxwcIg3OfBIMM+zWCJntk8HEZDgh4ctFei3bqt1r0O1VIyOV7dL+w"
+
+
+def build_server_binary():
+    env = dict(os.environ, CARGO_NET_OFFLINE="true")
+    p = subprocess.run(["cargo", "build", "--offline", "--features", "tls_rustls", "--manifest-path", "/repo/Cargo.toml", "--target-dir", RSBIN_DIR],
+                       capture_output=True, text=True, env=env)
+    return p.returncode == 0, (p.stdout + p.stderr)[-2000:]
+
+
+def tq(s):
+    return json.dumps(s, ensure_ascii=False)
+
+
+def c20_toml(d):
+    o = []
+    for k in ("name", "admin_info", "info", "motd", "network"):
+        if d.get(k) is not None:
+            o.append("%s = %s" % (k, tq(d[k])))
+    o.append('listen = "127.0.0.1"')
+    o.append("port = %d" % d.get("port", 6667))
+    if d.get("password") is not None:
+        o.append("password = %s" % tq(d["password"]))
+    if d.get("max_joins") is not None:
+        o.append("max_joins = %d" % d["max_joins"])
+    o += ["ping_timeout = 120", "pong_timeout = 20", "dns_lookup = false", 'log_level = "ERROR"']
+    if d.get("tls") is not None:
+        o.append("[tls]")
+        for k, v in d["tls"].items():
+            o.append("%s = %s" % (k, tq(v)))
+    o.append("[default_user_modes]")
+    for k, ch in (("invisible", "i"), ("oper", "o"), ("local_oper", "O"), ("registered", "r"), ("wallops", "w")):
+        o.append("%s = %s" % (k, "true" if ch in d.get("default_modes", "") else "false"))
+    for op in d.get("operators", []):
+        o += ["[[operators]]", "name = %s" % tq(op["name"]), "password = %s" % tq(op["password"])]
+    for u in d.get("users", []):
+        o += ["[[users]]", "name = %s" % tq(u["name"]), "nick = %s" % tq(u["nick"])]
+        if u.get("password") is not None:
+            o.append("password = %s" % tq(u["password"]))
+    for c in d.get("channels", []):
+        o += ["[[channels]]", "name = %s" % tq(c), "[channels.modes]", "invite_only = false", "moderated = false", "secret = false",
+              "protected_topic = false", "no_external_messages = false"]
+    return "\n".join(o) + "\n"
+
+
+def py_valid_username(s):
+    return s != "" and not any(ch in ASCII_WS for ch in s) and s[0] not in "#&" and not any(ch in ".,:" for ch in s)
+
+
+def py_valid_channel(s):
+    return s != "" and s[0] in "#&" and not any(ch in ASCII_WS or ch in ":," for ch in s)
+
+
+def py_valid_hash(s):
+    return re.match(r"^[A-Za-z0-9+/]{85}[AQgw]$", s) is not None
+
+
+def c20_expected(d, cli):
+    """the property's statement of start-up validation"""
+    if any(d.get(k) is None for k in ("name", "admin_info", "info", "motd", "network")):
+        return False, "a mandatory field is absent"
+    if d.get("tls") is not None and set(d["tls"]) != {"cert_file", "cert_key_file"}:
+        return False, "TLS certificate and key must be given together (file)"
+    if ("cert" in cli) != ("key" in cli):
+        return False, "TLS certificate and key must be given together (command line)"
+    name = cli.get("name", d["name"])
+    if "." not in name:
+        return False, "server name without a dot"
+    if d.get("password") is not None and not py_valid_hash(d["password"]):
+        return False, "malformed server password hash"
+    for op in d.get("operators", []):
+        if not py_valid_username(op["name"]) or not py_valid_hash(op["password"]):
+            return False, "invalid operator"
+    for u in d.get("users", []):
+        if not py_valid_username(u["name"]) or not py_valid_username(u["nick"]) or len(u["nick"].encode()) > 200:
+            return False, "invalid user name or nick"
+        if u.get("password") is not None and not py_valid_hash(u["password"]):
+            return False, "malformed user password hash"
+    for c in d.get("channels", []):
+        if not py_valid_channel(c):
+            return False, "invalid channel name"
+    return True, "valid"
+
+
+def c20_case(rng):
+    bad_hashes = ["", "xxxxxxxxx", GOOD_HASH[:-1], GOOD_HASH + "A", GOOD_HASH + "=", GOOD_HASH[:-1] + "x", GOOD_HASH.replace("+", "-"), GOOD_HASH[2:],
+                  " " + GOOD_HASH[1:], "/" * 86, "A" * 86 + "=="]
+    good_hashes = [GOOD_HASH, "A" * 86, GOOD_HASH[:-1] + "Q", "B" * 85 + "g"]
+
+    def hash_(p_bad):
+        return rng.choice(bad_hashes) if rng.random() < p_bad else rng.choice(good_hashes)
+    names_ok = ["admin", "oper1", "é", "x" * 30, "a-b_c", "[x]"]
+    names_bad = ["", "op er", "#op", "&op", "a.b", "a,b", "a:b", "tab\tname"]
+    chans_ok = ["#chan", "&loc", "#é", "##", "#a.b"]
+    chans_bad = ["chan", "", "#a,b", "#a b", "#a:b", "+x"]
+    p = 0.12
+    d = dict(name=rng.choice(["irc.irc", "a.b", "é.x", "irc.example.org"]) if rng.random() > p else rng.choice(["localhost", "", "irc"]),
+             admin_info="Admin", info="Info", motd="Motd", network="Net")
+    if rng.random() < 0.05:
+        d[rng.choice(["admin_info", "info", "motd", "network", "name"])] = None
+    if rng.random() < 0.5:
+        d["password"] = hash_(p * 2)
+    d["operators"] = [dict(name=rng.choice(names_bad) if rng.random() < p else rng.choice(names_ok), password=hash_(p)) for _ in range(rng.choice([0, 0, 1, 2]))]
+    d["users"] = []
+    for _ in range(rng.choice([0, 0, 1, 2])):
+        u = dict(name=rng.choice(names_bad) if rng.random() < p else rng.choice(names_ok),
+                 nick=rng.choice(names_bad + ["n" * 201, "é" * 101]) if rng.random() < p else rng.choice(names_ok + ["n" * 200, "é" * 100]))
+        if rng.random() < 0.5:
+            u["password"] = hash_(p)
+        d["users"].append(u)
+    d["channels"] = [rng.choice(chans_bad) if rng.random() < p else rng.choice(chans_ok) for _ in range(rng.choice([0, 0, 1, 3]))]
+    r = rng.random()
+    if r < 0.1:
+        d["tls"] = dict(cert_file="/repo/test_data/cert.crt", cert_key_file="/repo/test_data/cert_key.crt")
+    elif r < 0.16:
+        d["tls"] = dict(cert_file="/repo/test_data/cert.crt") if rng.random() < 0.5 else dict(cert_key_file="/repo/test_data/cert_key.crt")
+    cli = {}
+    if rng.random() < 0.25:
+        cli["name"] = rng.choice(["cli.name", "override.irc", "nodot", ""])
+    r = rng.random()
+    if r < 0.08:
+        cli["cert"] = "/repo/test_data/cert.crt"
+        cli["key"] = "/repo/test_data/cert_key.crt"
+    elif r < 0.14:
+        cli["cert"] = "/repo/test_data/cert.crt"
+    elif r < 0.2:
+        cli["key"] = "/repo/test_data/cert_key.crt"
+    if rng.random() < 0.1:
+        cli["network"] = "CliNet"
+    return d, cli
+
+
+def c20_cli_args(cli):
+    a = []
+    if "name" in cli:
+        a += ["-n", cli["name"]]
+    if "network" in cli:
+        a += ["-N", cli["network"]]
+    if "cert" in cli:
+        a += ["-C", cli["cert"]]
+    if "key" in cli:
+        a += ["-K", cli["key"]]
+    return a
+
+
+def c20_model_line(d, cli):
+    def oh(x):
+        return "-" if x is None else hx(x)
+    t = ["FM", "name=" + hx(d["name"]), "pw=" + oh(d.get("password")), "cliname=" + oh(cli.get("name")),
+         "cert=%d" % ("cert" in cli), "key=%d" % ("key" in cli)]
+    for op in d.get("operators", []):
+        t.append("oper:%s:%s" % (hx(op["name"]), hx(op["password"])))
+    for u in d.get("users", []):
+        t.append("user:%s:%s:%s" % (hx(u["name"]), hx(u["nick"]), oh(u.get("password"))))
+    for c in d.get("channels", []):
+        t.append("chan:" + hx(c))
+    return " ".join(t)
+
+
+def free_port():
+    s = socket.socket()
+    s.bind(("127.0.0.1", 0))
+    p = s.getsockname()[1]
+    s.close()
+    return p
+
+
+class Server:
+    def __init__(self, d, cli_args=(), tag="c20"):
+        self.port = free_port()
+        d = dict(d, port=self.port)
+        self.path = os.path.join(irc.BUILD, "scratch", "%s-%d.toml" % (tag, self.port))
+        os.makedirs(os.path.dirname(self.path), exist_ok=True)
+        open(self.path, "w").write(c20_toml(d))
+        self.proc = subprocess.Popen([SERVER_BIN, "-c", self.path] + list(cli_args), stdout=subprocess.PIPE, stderr=subprocess.STDOUT)
+        self.listening = False
+        t0 = _time.time()
+        while _time.time() - t0 < 4:
+            if self.proc.poll() is not None:
+                break
+            try:
+                s = socket.create_connection(("127.0.0.1", self.port), timeout=0.2)
+                s.close()
+                self.listening = True
+                break
+            except OSError:
+                _time.sleep(0.03)
+
+    def stop(self):
+        out = b""
+        if self.proc.poll() is None:
+            self.proc.kill()
+        try:
+            out = self.proc.communicate(timeout=3)[0]
+        except Exception:
+            pass
+        try:
+            os.remove(self.path)
+        except OSError:
+            pass
+        return self.proc.returncode, out.decode("utf-8", "replace")
+
+
+class Client:
+    def __init__(self, port, tls=False):
+        s = socket.create_connection(("127.0.0.1", port), timeout=3)
+        if tls:
+            ctx = ssl.SSLContext(ssl.PROTOCOL_TLS_CLIENT)
+            ctx.check_hostname = False
+            ctx.verify_mode = ssl.CERT_NONE
+            s = ctx.wrap_socket(s)
+        self.s = s
+        self.buf = b""
+        self.lines = []
+
+    def send(self, l):
+        self.s.sendall((l + "\r\n").encode())
+
+    def read_until(self, pred, tmo=3.0):
+        t0 = _time.time()
+        got = []
+        while _time.time() - t0 < tmo:
+            while b"\n" in self.buf:
+                ln, self.buf = self.buf.split(b"\n", 1)
+                ln = ln.rstrip(b"\r").decode("utf-8", "replace")
+                got.append(ln)
+                self.lines.append(ln)
+                if pred(ln):
+                    return got
+            self.s.settimeout(max(0.05, tmo - (_time.time() - t0)))
+            try:
+                x = self.s.recv(65536)
+            except (socket.timeout, ssl.SSLError, OSError):
+                x = b""
+                if isinstance(self.s, ssl.SSLSocket):
+                    continue
+            if not x:
+                break
+            self.buf += x
+        return got
+
+    def cmd(self, l, k=[0]):
+        k[0] += 1
+        tok = "b%d" % k[0]
+        self.send(l)
+        self.send("PING " + tok)
+        return self.read_until(lambda x: x.endswith("PONG %s :%s" % ("SRV", tok)) or (" PONG " in x and x.endswith(":" + tok)))
+
+    def close(self):
+        try:
+            self.s.close()
+        except OSError:
+            pass
+
+
+def c20_script(port, tls, pw=None):
+    """one fixed two-client scene; returns the canonical transcript per client"""
+    a, b = Client(port, tls), Client(port, tls)
+    out = {}
+    try:
+        for c, nk in ((a, "alice"), (b, "bob")):
+            if pw is not None:
+                c.send("PASS " + pw)
+            c.send("NICK " + nk)
+            c.send("USER %s 8 * :Real %s" % (nk, nk))
+            c.read_until(lambda x: " 221 " in x or " 464 " in x or x.startswith("ERROR"))
+        for c, l in ((a, "JOIN #room"), (b, "JOIN #room"), (a, "PRIVMSG #room :hello bob"), (b, "TOPIC #room :a topic: here"), (a, "MODE #room +m"),
+                     (b, "PRIVMSG #room :muted?"), (a, "MODE #room +v bob"), (b, "PRIVMSG #room :voiced"), (a, "NAMES #room"), (b, "WHOIS alice"),
+                     (a, "LUSERS"), (b, "LIST"), (a, "KICK #room bob :bye"), (b, "JOIN #room,#other"), (a, "WHO #room"), (b, "PART #room :leaving"),
+                     (a, "FOO bar"), (b, "AWAY :gone"), (a, "PRIVMSG bob :are you there"), (a, "VERSION"), (a, "ADMIN"), (b, "QUIT")):
+            c.cmd(l)
+        a.cmd("NAMES #room")
+    finally:
+        for nk, c in (("alice", a), ("bob", b)):
+            out[nk] = c.lines
+            c.close()
+    return out
+
+
+def welcome_oracle(t, steps):
+    """the welcome burst is built from the configuration: names, network, MOTD, default user modes"""
+    fails = []
+    cfg = t.cfg
+    for s in steps:
+        for c, ls in (s.get("out") or {}).items():
+            codes = {numeric_of(l): l for l in ls if l.startswith(":")}
+            if "001" in codes:
+                for l in ls:
+                    if not l.startswith(":" + cfg.name + " "):
+                        fails.append(("a line of the welcome burst does not come from the configured server name %r: %r" % (cfg.name, l[:100]), {"step": s["k"]}))
+                        break
+                if cfg.network not in codes["001"]:
+                    fails.append(("001 does not name the configured network %r: %r" % (cfg.network, codes["001"]), {"step": s["k"]}))
+                if "372" in codes and not codes["372"].endswith(":" + cfg.motd):
+                    fails.append(("372 does not carry the configured MOTD %r: %r" % (cfg.motd, codes["372"]), {"step": s["k"]}))
+                if "221" in codes:
+                    m = codes["221"].split(" ")[-1].lstrip("+")
+                    want = set(cfg.default_modes)
+                    if not want <= set(m) or (set(m) - want - set("r")):
+                        fails.append(("221 after registration shows modes +%s, the configured defaults are +%s" % (m, cfg.default_modes), {"step": s["k"]}))
+    return fails
+
+
+def check_C20(res):
+    rng = random.Random(res.seed + 20)
+    n = 1500 if res.tier == "quick" else 15000
+    cases = [c20_case(rng) for _ in range(n)]
+    fl = ["F %s %s" % (hx(c20_toml(d)), " ".join(hx(x) for x in c20_cli_args(cli))) for d, cli in cases]
+    fi = run_pure([x.rstrip() for x in fl])
+    modelable = [i for i, (d, cli) in enumerate(cases) if all(d.get(k) is not None for k in ("name", "admin_info", "info", "motd", "network"))
+                 and (d.get("tls") is None or len(d["tls"]) == 2)]
+    fm = run_pure([c20_model_line(*cases[i]) for i in modelable], model=True)
+    mres = dict(zip(modelable, fm))
+    reasons = collections.Counter()
+    spec_fail = tie_fail = 0
+    for i, ((d, cli), a) in enumerate(zip(cases, fi)):
+        want, why = c20_expected(d, cli)
+        reasons[why] += 1
+        got = a.startswith("OK ")
+        if got != want:
+            spec_fail += 1
+            if spec_fail <= 3:
+                res.violation("a configuration that is %s (%s) is %s at start-up: %s" % ("valid" if want else "invalid", why, "accepted" if got else "rejected", a[:200]),
+                              {"kind": "pure", "case": fl[i].rstrip(), "config": d, "cli": cli, "impl": a[:500]}, found=True)
+        elif i in mres and mres[i] != ("true" if got else "false"):
+            tie_fail += 1
+        if got and want:
+            # the command line overrides the file
+            dbg = json.loads(a[3:])
+            wn = cli.get("name", d["name"])
+            wnet = cli.get("network", d["network"])
+            if ("name: %s," % rust_debug_str(wn)) not in dbg or ("network: %s," % rust_debug_str(wnet)) not in dbg:
+                spec_fail += 1
+                res.violation("command-line options do not override the file: expected name %r network %r in %s" % (wn, wnet, dbg[:300]),
+                              {"kind": "pure", "case": fl[i].rstrip(), "config": d, "cli": cli}, found=True)
+    if tie_fail and not spec_fail:
+        res.violation("correspondence Config.config_accept vs MainConfig::new differs on %d configurations" % tie_fail, {"kind": "tie"}, found=False)
+    # password hashes: the validator, and generate / verify
+    hs_ = [GOOD_HASH] + [GOOD_HASH[:k] + ch + GOOD_HASH[k + 1:] for k in (0, 40, 84, 85) for ch in "AQgwxB/+-= é"] + \
+          ["".join(rng.choice("ABCxyz019+/") for _ in range(rng.choice([85, 86, 86, 86, 87, 88]))) for _ in range(300)]
+    vi = run_pure(["V pwhash " + hx(h) for h in hs_])
+    vm = run_pure(["V pwhash " + hx(h) for h in hs_], model=True)
+    for h, a, b in zip(hs_, vi, vm):
+        if (a == "true") != py_valid_hash(h):
+            res.violation("validate_password_hash(%r) = %s, a well-formed hash is 86 characters of canonical unpadded base64" % (h, a),
+                          {"kind": "pure", "case": "V pwhash " + hx(h)}, found=True)
+        elif a != b:
+            res.violation("correspondence Config.valid_hash vs validate_password_hash differs", {"hash": h, "impl": a, "model": b}, found=False)
+    pws = ["secret", "", "p", "päss wörd", "x" * 200, "a:b c", "secret "] + ["".join(rng.choice("abcXYZ09 é:") for _ in range(rng.randint(1, 12))) for _ in range(8 if res.tier == "quick" else 60)]
+    hh = [json.loads(x) for x in run_pure(["H " + hx(p) for p in pws])]
+    ver = []
+    for p, h in zip(pws, hh):
+        ver.append("A %s %s" % (hx(p), hx(h)))
+        q = rng.choice([p + "x", p[:-1], p.upper() if p.upper() != p else p + " ", "other"])
+        if q != p:
+            ver.append("A %s %s" % (hx(q), hx(h)))
+    va = run_pure(ver)
+    for l, a in zip(ver, va):
+        f = l.split(" ")
+        same = bytes.fromhex(f[1]).decode() == pws[hh.index(bytes.fromhex(f[2]).decode())]
+        if (a == "true") != same:
+            res.violation("a generated hash %s the password %r" % ("rejects" if same else "accepts", bytes.fromhex(f[1]).decode()),
+                          {"kind": "pure", "case": l}, found=True)
+    for h in hh:
+        if not py_valid_hash(h):
+            res.violation("the hash generator printed %r, which the start-up validation would reject" % h, {"kind": "pure"}, found=True)
+    # the real binary: exit status at start-up, the welcome burst, -g, plain vs TLS
+    okb, outb = build_server_binary()
+    started = []
+    if not okb:
+        res.violation("the server binary does not build", {"log": outb}, found=False)
+    else:
+        base = dict(name="cfg.name.irc", admin_info="Admin", info="Info", motd="MOTD-from-config", network="NetFromConfig", channels=["#preset"], max_joins=1,
+                    default_modes="iw")
+        variants = [("valid", base, [], True), ("no dot", dict(base, name="nodot"), [], False), ("bad hash", dict(base, password="xxxx"), [], False),
+                    ("bad oper", dict(base, operators=[dict(name="o p", password=GOOD_HASH)]), [], False),
+                    ("bad user nick", dict(base, users=[dict(name="u", nick="#n")]), [], False),
+                    ("bad channel", dict(base, channels=["nochan"]), [], False),
+                    ("cli cert only", base, ["-C", "/repo/test_data/cert.crt"], False),
+                    ("cli key only", base, ["-K", "/repo/test_data/cert_key.crt"], False),
+                    ("cli name override", dict(base, name="nodot"), ["-n", "from.cli"], True),
+                    ("cli name breaks", base, ["-n", "nodotcli"], False),
+                    ("missing motd", dict(base, motd=None), [], False)]
+        for label, d, args, want in variants:
+            sv = Server(d, args)
+            lines = []
+            if sv.listening:
+                try:
+                    c = Client(sv.port)
+                    c.send("NICK alice")
+                    c.send("USER alice 8 * :Alice")
+                    lines = c.read_until(lambda x: " 221 " in x)
+                    c.send("JOIN #preset,#second")
+                    lines += c.read_until(lambda x: " 405 " in x or " 366 " in x and "#second" in x, tmo=1.5)
+                    c.close()
+                except OSError:
+                    pass
+            rc, out = sv.stop()
+            started.append({"case": label, "listening": sv.listening, "exit": rc, "welcome_lines": len(lines)})
+            if sv.listening != want:
+                res.violation("start-up with configuration %r: the server %s" % (label, "serves although the configuration is invalid" if sv.listening else "does not start: " + out[-200:]),
+                              {"kind": "binary", "case": label, "config": d, "args": args, "output": out[-1500:]}, found=True)
+            elif not want and (rc in (0, None, -9)):
+                res.violation("start-up with invalid configuration %r does not exit with an error status (exit %r)" % (label, rc),
+                              {"kind": "binary", "case": label, "output": out[-1500:]}, found=True)
+            elif want:
+                name = "from.cli" if "-n" in args else d["name"]
+                txt = "\n".join(lines)
+                probs = []
+                if not lines or not all(l.startswith(":" + name + " ") or l.startswith(":alice") for l in lines):
+                    probs.append("lines not prefixed by the effective server name %r" % name)
+                if "NetFromConfig" not in txt:
+                    probs.append("network name absent from the welcome burst")
+                if ":MOTD-from-config" not in txt:
+                    probs.append("configured MOTD absent")
+                if not re.search(r" 221 alice \+[iw]{2}$", txt, re.M):
+                    probs.append("default user modes +iw not applied")
+                if " 405 " not in txt:
+                    probs.append("max_joins = 1 not enforced (no 405 for the second channel)")
+                if probs:
+                    res.violation("a started server does not follow its configuration: " + "; ".join(probs),
+                                  {"kind": "binary", "case": label, "config": d, "args": args, "lines": lines[-40:]}, found=True)
+        # -g prints a hash that accepts exactly its password
+        pw = "pässword 1"
+        g = subprocess.run([SERVER_BIN, "-g", "-P", pw], capture_output=True, text=True)
+        m = re.search(r"Password Hash: (\S+)", g.stdout + g.stderr)
+        if not m:
+            res.violation("-g -P does not print a password hash", {"kind": "binary", "output": (g.stdout + g.stderr)[-500:]}, found=True)
+        else:
+            sv = Server(dict(base, password=m.group(1)))
+            verdict = {}
+            for tryp in (pw, pw + "x", None):
+                c = Client(sv.port)
+                if tryp is not None:
+                    c.send("PASS :" + tryp)
+                c.send("NICK n%d" % len(verdict))
+                c.send("USER u 8 * :U")
+                ls = c.read_until(lambda x: " 001 " in x or " 464 " in x or x.startswith("ERROR"), tmo=6)
+                verdict[tryp] = any(" 001 " in x for x in ls)
+                c.close()
+            sv.stop()
+            if verdict != {pw: True, pw + "x": False, None: False}:
+                res.violation("a server configured with the hash printed by -g for %r accepts %r" % (pw, verdict), {"kind": "binary"}, found=True)
+        # TLS changes the transport only
+        tls_d = dict(base, max_joins=None, tls=dict(cert_file="/repo/test_data/cert.crt", cert_key_file="/repo/test_data/cert_key.crt"))
+        views = {}
+        for mode, d in (("plain", dict(base, max_joins=None)), ("tls", tls_d)):
+            sv = Server(d, tag="c20-" + mode)
+            try:
+                views[mode] = c20_script(sv.port, mode == "tls") if sv.listening else None
+            except Exception as e:
+                views[mode] = "client error: %r" % (e,)
+            rc, out = sv.stop()
+            if not sv.listening:
+                res.violation("the server does not start in %s mode: %s" % (mode, out[-300:]), {"kind": "binary", "mode": mode}, found=True)
+
+        def canon(v):
+            return {k: [irc.canon_line(x, "cfg.name.irc") for x in ls if " 671 " not in x and not re.match(r"^:\S+ PONG \S+ :b\d+$", x)] for k, ls in v.items()}
+        if isinstance(views.get("plain"), dict) and isinstance(views.get("tls"), dict):
+            cp, ct = canon(views["plain"]), canon(views["tls"])
+            cp = {k: irc.canon_lines(v, "cfg.name.irc") for k, v in cp.items()}
+            ct = {k: irc.canon_lines(v, "cfg.name.irc") for k, v in ct.items()}
+            if cp != ct:
+                import difflib
+                df = [x for k in cp for x in difflib.unified_diff(cp[k], ct.get(k, []), lineterm="", n=0)][:20]
+                res.violation("the same client script gives a different transcript over TLS than over plain TCP", {"kind": "binary", "diff": df}, found=True)
+            started.append({"case": "plain vs TLS", "lines_compared": sum(len(v) for v in cp.values())})
+        elif okb:
+            res.violation("plain / TLS transcripts could not be taken: %r" % ({k: (v if not isinstance(v, dict) else "ok") for k, v in views.items()},),
+                          {"kind": "binary"}, found=False)
+    # behaviour under random configurations, against the model
+    prof = {"weights": dict(JOIN=10, OPER=5, PRIVMSG=4, MODE=4, NICK=2, MISC=2, WHOIS=2, UMODE=2), "p_users": 0.6, "p_operators": 0.7, "p_channels": 0.7,
+            "p_default_mode": 0.6, "p_max_joins": 0.6, "p_password": 0.4}
+    ntr = 40 if res.tier == "quick" else 500
+    r = l2_campaign(res, "C20", ntr, 40, prof, oracle=welcome_oracle)
+    res.coverage.update({
+        "evaluations": len(cases) + len(hs_) + len(ver) + len(started) + r["steps"],
+        "distinct_nontrivial": len(set(fl)) + len(set(hs_)) + r["traces"],
+        "rule": "%d configuration files x command lines (each validated field valid / invalid / absent: server name, password hashes incl. non-canonical base64, operator / user / channel names, 200- "
+                "and 201-byte nicks, TLS pair in file and on the command line, --name / --network overrides) through the real MainConfig::new vs the rules of the statement (python) and vs Config.config_accept; "
+                "hash validator on mutated hashes; argon2 generate / verify on %d passwords (own password accepted, neighbours rejected); the real binary: %d start-up cases (exit status, listening or not, "
+                "welcome burst contents, max_joins, default modes, -n override), -g round trip through a configured server, one 2-client scene of 23 commands over plain TCP and over TLS compared line by line; "
+                "%d random-configuration histories against the model with a welcome-burst oracle" % (len(cases), len(pws), len(started), ntr),
+        "traces_validated_against_impl": r["traces"], "validation_outcomes": dict(reasons),
+        "samples": [{"config": cases[0][0], "cli": cases[0][1], "impl": fi[0][:160]}, started[:3]],
+        "binary_cases": started, "l2": r["summary"]})
+    res.assumptions = ["TOML syntax and field types are serde's: only accepted/rejected is compared for files that do not deserialize",
+                       "671 (secure connection) lines are excluded from the plain/TLS comparison: they describe the transport"]
+
+
+# ====================================================================== C17
+import threading
+
+KA_PATTERNS = ["always", "never", "late_ok", "late_bad", "stop_after_2", "odd_token", "chatter_never", "unsolicited_then_never", "stop_after_1_chatter"]
+
+
+def ka_client(port, nick, pattern, ping, pong, t_end, out):
+    """one real-time scenario; out gets the timeline in ms since connect"""
+    t0 = _time.time()
+
+    def now():
+        return int((_time.time() - t0) * 1000)
+    ev = []          # (ms, 'P'|'O'|'X')
+    rec = {"nick": nick, "pattern": pattern, "ping": ping, "pong": pong, "events": ev, "eof": None, "error_line": None, "reg": None, "lines": 0}
+    out.append(rec)
+    try:
+        s = socket.create_connection(("127.0.0.1", port), timeout=3)
+    except OSError as e:
+        rec["failed"] = repr(e)
+        return
+    s.sendall(("NICK %s\r\nUSER %s 8 * :%s\r\n" % (nick, nick, pattern)).encode())
+    buf = b""
+    pending = []     # scheduled pong send times (ms)
+    answered = 0
+    next_chatter = 300
+    if pattern == "unsolicited_then_never":
+        pending.append((200, "PONG :early"))
+    while True:
+        t = now()
+        if t >= t_end:
+            break
+        due = [p for p in pending if p[0] <= t]
+        for p in due:
+            pending.remove(p)
+            try:
+                s.sendall((p[1] + "\r\n").encode())
+                ev.append((now(), "O"))
+            except OSError:
+                pass
+        if pattern in ("chatter_never", "stop_after_1_chatter") and rec["reg"] is not None and t >= next_chatter:
+            next_chatter = t + 300
+            try:
+                s.sendall(b"PRIVMSG nobody :chatter\r\nPING me\r\n")
+                ev.append((now(), "X"))
+            except OSError:
+                pass
+        wait = 0.02
+        s.settimeout(wait)
+        try:
+            x = s.recv(65536)
+        except socket.timeout:
+            continue
+        except OSError:
+            x = b""
+        if not x:
+            rec["eof"] = now()
+            break
+        buf += x
+        while b"\n" in buf:
+            ln, buf = buf.split(b"\n", 1)
+            ln = ln.rstrip(b"\r").decode("utf-8", "replace")
+            rec["lines"] += 1
+            tl = now()
+            if " 001 " in ln and rec["reg"] is None:
+                rec["reg"] = tl
+            if ln.startswith("PING ") or " PING :" in ln and not ln.startswith(":" ) :
+                pass
+            m = re.match(r"^(?::\S+ )?PING :?(.*)$", ln)
+            if m:
+                ev.append((tl, "P"))
+                k = answered
+                tok = m.group(1)
+                reply = None
+                if pattern == "always":
+                    reply = (tl, "PONG :" + tok)
+                elif pattern == "late_ok":
+                    reply = (tl + int(pong * 500), "PONG :" + tok)
+                elif pattern == "late_bad":
+                    reply = (tl + int(pong * 1000) + 500, "PONG :" + tok)
+                elif pattern == "stop_after_2" and k < 2:
+                    reply = (tl, "PONG :" + tok)
+                elif pattern == "stop_after_1_chatter" and k < 1:
+                    reply = (tl, "PONG :" + tok)
+                elif pattern == "odd_token":
+                    reply = (tl, ["PONG :something else", "PONG x", "pong :" + tok, "PONG irc.irc :y"][k % 4])
+                if reply:
+                    pending.append(reply)
+                    answered += 1
+            if re.match(r"^(?::\S+ )?ERROR", ln):
+                rec["error_line"] = (tl, ln)
+    try:
+        s.close()
+    except OSError:
+        pass
+
+
+def check_C17(res):
+    okb, outb = build_server_binary()
+    if not okb:
+        res.violation("the server binary does not build", {"log": outb}, found=False)
+        return
+    cfgs = [(1, 1), (1, 2), (2, 1)] if res.tier == "quick" else [(1, 1), (1, 2), (2, 1), (1, 3), (2, 2), (3, 1), (2, 3)]
+    rounds = 1 if res.tier == "quick" else 3
+    recs = []
+    cleanup = []
+    for rd in range(rounds):
+        servers = []
+        threads = []
+        for ping, pong in cfgs:
+            d = dict(name="irc.irc", admin_info="A", info="I", motd="M", network="N")
+            sv = Server(d, tag="c17")
+            # the timeouts are not in c20_toml's fixed part: rewrite the file is not possible after start, so start with own text
+            sv.stop()
+            port = free_port()
+            path = os.path.join(irc.BUILD, "scratch", "c17-%d.toml" % port)
+            open(path, "w").write(c20_toml(dict(d, port=port)).replace("ping_timeout = 120", "ping_timeout = %d" % ping).replace("pong_timeout = 20", "pong_timeout = %d" % pong))
+            proc = subprocess.Popen([SERVER_BIN, "-c", path], stdout=subprocess.DEVNULL, stderr=subprocess.DEVNULL)
+            t0 = _time.time()
+            up = False
+            while _time.time() - t0 < 4:
+                try:
+                    socket.create_connection(("127.0.0.1", port), timeout=0.2).close()
+                    up = True
+                    break
+                except OSError:
+                    _time.sleep(0.03)
+            servers.append((proc, port, path, ping, pong))
+            if not up:
+                res.violation("the server does not start with ping_timeout=%d pong_timeout=%d" % (ping, pong), {"kind": "binary"}, found=False)
+                continue
+            t_end = int((max(4 * ping, 2 * ping + pong) + 1.2) * 1000)
+            mine = []
+            for k, pat in enumerate(KA_PATTERNS):
+                th = threading.Thread(target=ka_client, args=(port, "k%d%s" % (k, "abc"[rd]), pat, ping, pong, t_end, mine))
+                th.start()
+                threads.append(th)
+            recs.append((ping, pong, port, mine))
+        for th in threads:
+            th.join()
+        # clean-up of the dropped sessions, seen by a live client
+        for ping, pong, port, mine in recs[-len(cfgs):]:
+            try:
+                c = Client(port)
+                c.send("NICK watcher")
+                c.send("USER w 8 * :W")
+                c.read_until(lambda x: " 221 " in x)
+                for r in mine:
+                    ls = c.cmd("WHOIS " + r["nick"])
+                    gone = not any(" 311 " in l for l in ls)
+                    cleanup.append((r["nick"], r["pattern"], r["eof"] is not None, gone))
+                c.close()
+            except OSError:
+                pass
+        for proc, port, path, ping, pong in servers:
+            proc.kill()
+            proc.wait()
+            try:
+                os.remove(path)
+            except OSError:
+                pass
+    # the timed model on the observed timelines
+    cases = []
+    flat = []
+    for ping, pong, port, mine in recs:
+        for r in mine:
+            if r.get("failed") or r["reg"] is None:
+                res.violation("keep-alive scenario %s could not register: %r" % (r["pattern"], r.get("failed")), {"kind": "binary"}, found=False)
+                continue
+            evs = sorted(r["events"], key=lambda e: e[0])
+            horizon = (r["eof"] if r["eof"] is not None else max([e[0] for e in evs] + [0]) + 1)
+            t_end = int((max(4 * ping, 2 * ping + pong) + 1.2) * 1000)
+            horizon = t_end if r["eof"] is None else t_end
+            flat.append(r)
+            cases.append("KA %d %d %s" % (pong * 1000, horizon, " ".join("%d:%s" % e for e in evs)))
+    pred = run_pure(cases, model=True)
+    SL_EARLY, SL_LATE = 150, 900
+    verdicts = collections.Counter()
+    for r, p, case in zip(flat, pred, cases):
+        ping, pong = r["ping"], r["pong"]
+        evs = sorted(r["events"], key=lambda e: e[0])
+        pings = [t for t, k in evs if k == "P"]
+        # PING schedule: registration + k * ping_timeout
+        for k, t in enumerate(pings, start=1):
+            want = r["reg"] + k * ping * 1000
+            if abs(t - want) > 600:
+                res.violation("PING number %d arrives %d ms after registration, expected about %d ms (ping_timeout=%d s)" % (k, t - r["reg"], k * ping * 1000, ping),
+                              {"kind": "timing", "scenario": r}, found=True)
+                break
+        if not pings and (r["eof"] is None or r["eof"] > r["reg"] + ping * 1000 + 600):
+            res.violation("no PING was sent within ping_timeout=%d s of registration" % ping, {"kind": "timing", "scenario": r}, found=True)
+        # a PONG within the slack of the deadline makes the expectation ambiguous
+        ambiguous = False
+        if p.startswith("closed"):
+            T = int(p.split()[1])
+            ambiguous = any(k == "O" and abs(t - T) <= SL_EARLY for t, k in evs)
+        else:
+            # would a slightly later PONG have missed the deadline?  re-run the model with every PONG delayed by the slack
+            shifted = sorted(((t + (SL_EARLY if k == "O" else 0), k) for t, k in evs), key=lambda e: e[0])
+            p2 = run_pure(["KA %d %d %s" % (pong * 1000, int(case.split()[2]), " ".join("%d:%s" % e for e in shifted))], model=True)[0]
+            ambiguous = p2.startswith("closed")
+        if ambiguous:
+            verdicts["ambiguous"] += 1
+            continue
+        if p.startswith("closed"):
+            T = int(p.split()[1])
+            verdicts["dropped"] += 1
+            if r["eof"] is None:
+                res.violation("a client that did not answer the PING of t=%d ms is still connected %d ms later (pong_timeout=%d s, pattern %s)" % (
+                    T - pong * 1000, int(case.split()[2]) - T + pong * 1000, pong, r["pattern"]), {"kind": "timing", "scenario": r, "model": p, "case": case}, found=True)
+            elif not (T - SL_EARLY <= r["eof"] <= T + SL_LATE):
+                res.violation("the connection is closed at t=%d ms, the keep-alive model gives t=%d ms (first unanswered PING + pong_timeout=%d s; pattern %s)" % (
+                    r["eof"], T, pong, r["pattern"]), {"kind": "timing", "scenario": r, "model": p, "case": case}, found=True)
+            elif r["error_line"] is None or "Pong timeout" not in r["error_line"][1]:
+                res.violation("the dropped client was not sent the ERROR line before the close", {"kind": "timing", "scenario": r}, found=True)
+        else:
+            verdicts["kept"] += 1
+            if r["eof"] is not None:
+                res.violation("a client that answered every PING in time was disconnected at t=%d ms (pattern %s, ping=%d pong=%d)" % (r["eof"], r["pattern"], ping, pong),
+                              {"kind": "timing", "scenario": r, "model": p, "case": case}, found=True)
+    for nick, pat, dropped, gone in cleanup:
+        if dropped != gone:
+            res.violation("after the keep-alive %s client %s (%s), WHOIS from a live client says it is %s" % (
+                "dropped" if dropped else "kept", nick, pat, "gone" if gone else "still registered"), {"kind": "timing"}, found=True)
+    # PING -> PONG token echo, through the ordinary trace machinery (also ties process_ping/process_pong to the model)
+    rng = random.Random(res.seed + 17)
+    traces = []
+    for i in range(6 if res.tier == "quick" else 40):
+        t = Trace("C17-echo-%d" % i, Config())
+        t.register(0, "alice")
+        t.open(1)
+        for _ in range(12):
+            tok = rng.choice(["x", "a b", ":c", "é", "1" * 50, "", "LALAL", "irc.irc"])
+            c = rng.choice([0, 0, 1])
+            t.line(c, rng.choice(["PING :" + tok, "PING " + tok.split(" ")[0] if tok else "PING", "PONG :" + tok, "PONG", "PONG a b"]))
+        traces.append(t)
+
+    def echo_oracle(t, steps):
+        fails = []
+        reg = set()
+        for s in sorted(steps, key=lambda s: s["k"]):
+            ev = t.events[s["k"]]
+            if ev[0] == "L" and isinstance(ev[2], str):
+                tok = py_tokenize(ev[2])
+                if tok[0] == "OK" and tok[2] == "PING" and tok[3] and ev[1] == 0:
+                    want = ":%s PONG %s :%s" % (t.cfg.name, t.cfg.name, tok[3][0])
+                    got = (s.get("out") or {}).get("0", [])
+                    if s["k"] > 2 and want not in got:
+                        fails.append(("PING %r is not answered with a PONG carrying the token: %r" % (tok[3][0], got), {"step": s["k"]}))
+        return fails
+    r = l2_campaign(res, "C17", 0, 0, {}, traces=traces, oracle=echo_oracle)
+    res.coverage.update({
+        "evaluations": len(flat) + r["steps"], "distinct_nontrivial": len(flat) + r["traces"],
+        "rule": "real-time scenarios against the real binary: %d (ping_timeout, pong_timeout) configurations incl. pong >= ping x %d client patterns (%s) x %d round(s); every observed timeline "
+                "(server PINGs, client PONGs, other traffic, in ms) is run through the extracted ka_run and the observed disconnection (time within -%d/+%d ms, ERROR line, or none) must agree; PING schedule "
+                "= registration + k * ping_timeout; WHOIS from a live client after the fact; PONGs closer than %d ms to a deadline are counted as ambiguous and not judged; plus PING/PONG token-echo histories "
+                "against the model" % (len(cfgs), len(KA_PATTERNS), ", ".join(KA_PATTERNS), rounds, SL_EARLY, SL_LATE, SL_EARLY),
+        "traces_validated_against_impl": len(flat) + r["traces"], "verdicts": dict(verdicts),
+        "samples": [{"pattern": x["pattern"], "ping": x["ping"], "pong": x["pong"], "events": x["events"][:12], "eof": x["eof"]} for x in flat[:4]],
+        "l2": r["summary"]})
+    res.assumptions = ["wall-clock slack: the client sees a PING a little after the server's timer fired; deadlines are judged within -%d/+%d ms" % (SL_EARLY, SL_LATE)]
+
+
+# ====================================================================== C18
+import select as _select, glob, traceback
+
+
+def lock_shape_scan():
+    shape = {}
+    for f in sorted(glob.glob("/repo/src/state/*.rs")):
+        if f.endswith("verif.rs"):
+            continue
+        src = open(f).read()
+        i = src.find("#[cfg(test)]")
+        if i > 0:
+            src = src[:i]
+        fns = list(re.finditer(r"^\s*(?:pub(?:\([a-z]+\))? )?(?:async )?fn (\w+)", src, re.M))
+        for k, m in enumerate(fns):
+            body = src[m.start(): fns[k + 1].start() if k + 1 < len(fns) else len(src)]
+            acq = re.findall(r"state\s*\.\s*(read|write)\(\)\s*\.\s*await", body)
+            if acq:
+                shape["%s::%s" % (f.split("/")[-1], m.group(1))] = "".join(a[0].upper() for a in acq)
+    want = json.load(open(os.path.join(irc.VERIF, "inventory", "lock_shape.json")))["shape"]
+    diff = {k: (want.get(k), shape.get(k)) for k in sorted(set(want) | set(shape)) if want.get(k) != shape.get(k)}
+    return shape, diff
+
+
+class BConn:
+    """non-blocking line client for the burst scenarios"""
+    def __init__(self, port):
+        self.s = socket.create_connection(("127.0.0.1", port), timeout=5)
+        self.s.setsockopt(socket.IPPROTO_TCP, socket.TCP_NODELAY, 1)
+        self.buf = b""
+        self.lines = []
+        self.eof = False
+
+    def send(self, text):
+        try:
+            self.s.sendall(text.encode())
+        except OSError:
+            self.eof = True
+
+    def pump(self, tmo=0.0):
+        if self.eof:
+            return
+        r, _, _ = _select.select([self.s], [], [], tmo)
+        if not r:
+            return
+        try:
+            d = self.s.recv(1 << 16)
+        except OSError:
+            d = b""
+        if not d:
+            self.eof = True
+            return
+        self.buf += d
+        while b"\n" in self.buf:
+            ln, self.buf = self.buf.split(b"\n", 1)
+            self.lines.append(ln.rstrip(b"\r").decode("utf-8", "replace"))
+
+    def wait_for(self, pred, tmo=5.0, start=0):
+        t0 = _time.time()
+        seen = start
+        while _time.time() - t0 < tmo:
+            for l in self.lines[seen:]:
+                if pred(l):
+                    return l
+            seen = len(self.lines)
+            if self.eof:
+                return None
+            self.pump(0.05)
+        return None
+
+    def close(self):
+        try:
+            self.s.close()
+        except OSError:
+            pass
+
+
+def pump_all(conns, quiet=0.25, tmo=6.0):
+    """reads from all connections until nothing has arrived for `quiet` seconds"""
+    t0 = _time.time()
+    last = _time.time()
+    while _time.time() - t0 < tmo and _time.time() - last < quiet:
+        socks = [c.s for c in conns if not c.eof]
+        if not socks:
+            break
+        r, _, _ = _select.select(socks, [], [], 0.05)
+        if r:
+            last = _time.time()
+            for c in conns:
+                if c.s in r:
+                    c.pump(0)
+
+
+def register_all(port, nicks):
+    cs = []
+    for n in nicks:
+        c = BConn(port)
+        c.send("NICK %s\r\nUSER %s 8 * :%s\r\n" % (n, n, n))
+        cs.append(c)
+    for c, n in zip(cs, nicks):
+        if not c.wait_for(lambda l: " 221 " in l or " 433 " in l):
+            raise RuntimeError("registration of %s did not complete" % n)
+    return cs
+
+
+def check_C18(res):
+    okb, outb = build_server_binary()
+    if not okb:
+        res.violation("the server binary does not build", {"log": outb}, found=False)
+        return
+    shape, sdiff = lock_shape_scan()
+    rounds = 6 if res.tier == "quick" else 60
+    N = 24
+    stats = collections.Counter()
+    d = dict(name="irc.irc", admin_info="A", info="I", motd="M", network="N")
+    port = free_port()
+    path = os.path.join(irc.BUILD, "scratch", "c18-%d.toml" % port)
+    toml = c20_toml(dict(d, port=port)) + "".join(
+        '[[channels]]\nname = "#lim%d"\n[channels.modes]\ninvite_only = false\nmoderated = false\nsecret = false\nprotected_topic = false\nno_external_messages = false\nclient_limit = 3\n' % k
+        for k in range(rounds))
+    open(path, "w").write(toml)
+    proc = subprocess.Popen([SERVER_BIN, "-c", path], stdout=subprocess.DEVNULL, stderr=subprocess.PIPE)
+    t0 = _time.time()
+    while _time.time() - t0 < 4:
+        try:
+            socket.create_connection(("127.0.0.1", port), timeout=0.2).close()
+            break
+        except OSError:
+            _time.sleep(0.03)
+    found = []
+
+    def bad(what, detail):
+        found.append(what)
+        if len(found) <= 4:
+            res.violation(what, dict({"kind": "burst"}, **detail), found=True)
+    stop_hogs = threading.Event()
+
+    def hog(k):
+        # ordinary clients that keep the state lock busy, so that waiting acquisitions are granted together
+        try:
+            c = BConn(port)
+            c.send("NICK hog%d\r\nUSER h 8 * :h\r\n" % k)
+            c.wait_for(lambda l: " 221 " in l)
+            i = 0
+            while not stop_hogs.is_set():
+                i += 1
+                c.send("".join("JOIN #h%d_%d\r\nPART #h%d_%d\r\n" % (k, j, k, j) for j in range(20)))
+                c.pump(0.01)
+                c.lines = c.lines[-50:]
+            c.close()
+        except Exception:
+            pass
+    hogs = [threading.Thread(target=hog, args=(k,)) for k in range(4)]
+    for h in hogs:
+        h.start()
+    try:
+        everyone = []
+        for rd in range(rounds):
+            # A. simultaneous claims to one nickname
+            nick = "racer%d" % rd
+            cs = [BConn(port) for _ in range(N)]
+            for c in cs:
+                c.send("NICK %s\r\n" % nick)
+            pump_all(cs, quiet=0.1, tmo=1.0)
+            for c in cs:
+                c.send("USER u 8 * :u\r\n")
+            for c in cs:
+                c.wait_for(lambda l: " 001 " in l or " 433 " in l, tmo=6)
+            pump_all(cs, quiet=0.15, tmo=2.0)
+            welcomed = [c for c in cs if any(" 001 " in l for l in c.lines)]
+            refused = [c for c in cs if any(" 433 " in l for l in c.lines)]
+            stats["nick_claims"] += N
+            if len(welcomed) != 1 or len(welcomed) + len(refused) != N:
+                bad("of %d simultaneous claims to the nickname %s, %d were welcomed and %d refused (exactly one must win)" % (N, nick, len(welcomed), len(refused)),
+                    {"round": rd, "sample": [c.lines[:3] for c in cs[:4]]})
+            # the losers register under their own names and everybody joins one new channel at once
+            for k, c in enumerate(cs):
+                if c not in welcomed:
+                    c.send("NICK r%d_%d\r\n" % (rd, k))
+            for c in cs:
+                c.wait_for(lambda l: " 221 " in l, tmo=6)
+            names = {}
+            for k, c in enumerate(cs):
+                names[c] = nick if c in welcomed[:1] else "r%d_%d" % (rd, k)
+            # B. simultaneous first JOINs: one channel, one founder
+            ch = "#race%d" % rd
+            for c in cs:
+                c.send("JOIN %s\r\n" % ch)
+            pump_all(cs, quiet=0.3, tmo=6.0)
+            w = cs[0]
+            n0 = len(w.lines)
+            w.send("NAMES %s\r\n" % ch)
+            w.wait_for(lambda l: " 366 " in l and ch in l, start=n0)
+            members = [x for l in w.lines[n0:] if " 353 " in l for x in l.split(" :", 1)[1].split()]
+            founders = [m for m in members if m.startswith("~")]
+            stats["first_joins"] += N
+            if len(members) != N or len(founders) != 1:
+                bad("%d simultaneous first JOINs of %s leave %d members and %d founders (%d members, one founder expected)" % (N, ch, len(members), len(founders), N),
+                    {"round": rd, "names": members})
+            # C. a +l limit is never exceeded
+            lim = "#lim%d" % rd
+            for c in cs:
+                c.send("JOIN %s\r\n" % lim)
+            pump_all(cs, quiet=0.3, tmo=6.0)
+            n0 = len(w.lines)
+            w.send("NAMES %s\r\n" % lim)
+            w.wait_for(lambda l: " 366 " in l and lim in l, start=n0)
+            inside = [x for l in w.lines[n0:] if " 353 " in l for x in l.split(" :", 1)[1].split()]
+            full = sum(1 for c in cs if any(" 471 " in l and lim in l for l in c.lines))
+            stats["limit_joins"] += N
+            if (len(inside) != 3 and w not in [c for c in cs if any(l.startswith(":") and " JOIN " in l and lim in l for l in c.lines)]) or len(inside) > 3:
+                bad("%d simultaneous JOINs of %s (+l 3) leave %d members" % (N, lim, len(inside)), {"round": rd, "names": inside})
+            joined_lim = sum(1 for c in cs if any(re.match(r"^:%s!\S+ JOIN %s$" % (re.escape(names[c]), re.escape(lim)), l) for l in c.lines))
+            if joined_lim > 3 or joined_lim + full != N:
+                bad("JOIN %s (+l 3) by %d users at once: %d admitted, %d refused with 471" % (lim, N, joined_lim, full), {"round": rd})
+            # D. order: pipelined commands of every connection, sequence numbers on every socket
+            K = 12
+            ordc = cs[:8]
+            for c in ordc:
+                c.lines = []
+            for c in ordc:
+                c.send("".join("PRIVMSG %s :%s-%d\r\nPING p%d\r\n" % (ch, names[c], n, n) for n in range(K)))
+            pump_all(cs, quiet=0.4, tmo=8.0)
+            stats["ordered_messages"] += len(ordc) * K
+            for c in ordc:
+                toks = [l.rsplit(":", 1)[1] for l in c.lines if " PONG " in l]
+                if toks != ["p%d" % n for n in range(K)]:
+                    bad("replies to one connection's pipelined PINGs arrive as %r" % (toks,), {"round": rd})
+            for rc in cs:
+                per = collections.defaultdict(list)
+                for l in rc.lines:
+                    m = re.match(r"^:([^! ]+)!\S+ PRIVMSG %s :(\S+)-(\d+)$" % re.escape(ch), l)
+                    if m and m.group(1) == m.group(2):
+                        per[m.group(1)].append(int(m.group(3)))
+                for snd in ordc:
+                    if snd is rc:
+                        continue
+                    got = per.get(names[snd], [])
+                    if rc in ordc and got and got != list(range(K)) or (rc not in ordc and got != list(range(K))):
+                        if got != list(range(K)):
+                            bad("messages from %s reach %s as sequence %r (0..%d in order expected)" % (names[snd], names[rc], got, K - 1), {"round": rd})
+            # E. every live connection is still served
+            for c in cs:
+                c.send("PING alive%d\r\n" % rd)
+            for c in cs:
+                if not c.wait_for(lambda l: l.endswith(":alive%d" % rd), tmo=6):
+                    bad("a connection is not answered after the burst", {"round": rd, "nick": names[c]})
+                    break
+            # F. consistency of the three views after quiescence
+            n0 = len(w.lines)
+            w.send("WHO %s\r\n" % ch)
+            w.wait_for(lambda l: " 315 " in l, start=n0)
+            who = sorted(l.split(" ")[7] for l in w.lines[n0:] if " 352 " in l)
+            if who != sorted(m.lstrip("~&@%+") for m in members):
+                bad("after simultaneous JOINs NAMES and WHO of %s disagree" % ch, {"names": members, "who": who})
+            if rd < rounds - 1:
+                for c in cs:
+                    c.send("QUIT\r\n")
+                    c.close()
+            else:
+                everyone = cs
+        for c in everyone:
+            c.close()
+    except Exception:
+        res.violation("the burst harness failed", {"traceback": traceback.format_exc()}, found=False)
+    finally:
+        stop_hogs.set()
+        for h in hogs:
+            h.join(timeout=5)
+        proc.kill()
+        err = b""
+        try:
+            err = proc.communicate(timeout=3)[1] or b""
+        except Exception:
+            pass
+        try:
+            os.remove(path)
+        except OSError:
+            pass
+    if b"panicked" in err:
+        res.violation("a server task aborted during the burst: %s" % err.decode("utf-8", "replace")[-300:], {"kind": "burst"}, found=True)
+    if sdiff and not found:
+        res.violation("the lock structure of the handlers differs from the one the model's atomicity assumption was read from: %s" % json.dumps(sdiff),
+                      {"kind": "lock_shape", "diff": sdiff, "note": "inventory/lock_shape.json; each model step is one critical section only if check and update share one acquisition"},
+                      found=False)
+    # sequential semantics of the same commands (one at a time) against the model
+    prof = {"weights": dict(JOIN=10, NICK=6, PART=4, PRIVMSG=6, MODE=3, QUIT=1, MISC=1), "max_conns": 6, "initial_conns": 4}
+    r = l2_campaign(res, "C18", 20 if res.tier == "quick" else 200, 40, prof)
+    res.coverage.update({
+        "evaluations": sum(stats.values()) + r["steps"], "distinct_nontrivial": rounds * 5 + r["traces"],
+        "rule": "burst scenarios against the real multi-threaded binary, with 4 bystanders keeping the state lock contended: per round %d connections claim one nickname at the same moment (exactly one 001, "
+                "the rest 433), all JOIN one new channel at once (all members, exactly one founder), all JOIN a +l 3 channel at once (3 admitted, the rest 471), 8 of them pipeline 12 numbered PRIVMSG/PING pairs "
+                "(PONG tokens in order on each socket; per sender->receiver pair the sequence 0..11 in order), every connection answers PING afterwards, NAMES and WHO agree; %d rounds; plus the scan of "
+                "lock acquisitions per handler against inventory/lock_shape.json; plus %d sequential histories against the model" % (N, rounds, r["traces"]),
+        "traces_validated_against_impl": r["traces"], "burst": dict(stats), "lock_shape_functions": len(shape), "lock_shape_diff": sdiff,
+        "samples": [{"round": 0, "claims": N, "channel": "#race0", "limit_channel": "#lim0"}],
+        "l2": r["summary"]})
+    res.assumptions = ["real schedules are sampled, not enumerated: the burst scenarios support the theorems about the section structure, they do not replace them",
+                       "tokio's RwLock fairness and the mpsc FIFO are trusted runtime properties"]
